@@ -1,0 +1,99 @@
+//go:build verif
+
+// Contracts for the gvc verifier (/verif). This file contains comments only:
+// with the "verif" build tag off it is not compiled, with it on it adds no code.
+
+package xpath
+
+// XPath 1.0 section 3.7: a '*' or NCName is an operator iff there is a
+// preceding token and it is not one of @ :: ( [ , or an Operator.
+//
+//@ func (*CommonLex).tokenCanBeOperator
+//@   requires x != nil
+//@   nopanic
+//@   ensures result == !(x.precToken == xutils.EOF || x.precToken == '@' || x.precToken == xutils.DBLCOLON ||
+//@           x.precToken == '(' || x.precToken == '[' || x.precToken == ',' ||
+//@           x.precToken == xutils.AND || x.precToken == xutils.OR || x.precToken == xutils.MOD || x.precToken == xutils.DIV ||
+//@           x.precToken == '*' || x.precToken == '/' || x.precToken == xutils.DBLSLASH || x.precToken == '|' ||
+//@           x.precToken == '+' || x.precToken == '-' || x.precToken == xutils.EQ || x.precToken == xutils.NE ||
+//@           x.precToken == xutils.LT || x.precToken == xutils.LE || x.precToken == xutils.GT || x.precToken == xutils.GE)
+
+// ---------------------------------------------------------------------------
+// Datum: conversions between the XPath types (XPath 1.0 sections 4.2-4.4).
+// The interface-method contracts are what callers of d.Number() etc. rely on;
+// every implementation is verified against the same spec function.
+
+//@ func (Datum).Number
+//@   ensures same(result, xp_number(self))
+//@ func (Datum).Boolean
+//@   ensures result == xp_boolean(self)
+//@ func (Datum).Literal
+//@   ensures result == xp_string(self)
+//@ func (Datum).name
+//@   nopanic
+
+//@ func (numDatum).Number
+//@   nopanic
+//@   ensures same(result, xp_number(iface(n)))
+//@ func (numDatum).Boolean
+//@   nopanic
+//@   ensures result == xp_boolean(iface(n))
+//@ func (numDatum).Literal
+//@   nopanic
+//@   ensures implies(smt("Bool", "(or (fp.isInfinite %s) (fp.isZero %s))", n.num, n.num), result == xp_string(iface(n)))
+//@ func (boolDatum).Number
+//@   nopanic
+//@   ensures same(result, xp_number(iface(b)))
+//@ func (boolDatum).Boolean
+//@   nopanic
+//@   ensures result == xp_boolean(iface(b))
+//@ func (boolDatum).Literal
+//@   nopanic
+//@   ensures result == xp_string(iface(b))
+//@ func (litDatum).Boolean
+//@   nopanic
+//@   ensures result == xp_boolean(iface(l))
+//@ func (litDatum).Literal
+//@   nopanic
+//@   ensures result == xp_string(iface(l))
+
+// ---------------------------------------------------------------------------
+// Arithmetic and boolean instructions (XPath 1.0 section 3.5, 3.4): each pops
+// its operands, converts them with number()/boolean() and pushes the result.
+// The whole stack is specified: the untouched prefix is stated unchanged.
+
+//@ func (*ProgBuilder).Add
+//@   requires ctx != nil
+//@   ensures len(ctx.stack) == old(len(ctx.stack)) - 1
+//@   ensures ctx.stack[len(ctx.stack)-1] == xp_mknum(xp_add(xp_number(old(ctx.stack[len(ctx.stack)-2])), xp_number(old(ctx.stack[len(ctx.stack)-1]))))
+//@   ensures forall(i, 0, len(ctx.stack)-1, ctx.stack[i] == old(ctx.stack[i]))
+//@ func (*ProgBuilder).Sub
+//@   requires ctx != nil
+//@   ensures len(ctx.stack) == old(len(ctx.stack)) - 1
+//@   ensures ctx.stack[len(ctx.stack)-1] == xp_mknum(xp_sub(xp_number(old(ctx.stack[len(ctx.stack)-2])), xp_number(old(ctx.stack[len(ctx.stack)-1]))))
+//@   ensures forall(i, 0, len(ctx.stack)-1, ctx.stack[i] == old(ctx.stack[i]))
+//@ func (*ProgBuilder).Mul
+//@   requires ctx != nil
+//@   ensures len(ctx.stack) == old(len(ctx.stack)) - 1
+//@   ensures ctx.stack[len(ctx.stack)-1] == xp_mknum(xp_mul(xp_number(old(ctx.stack[len(ctx.stack)-2])), xp_number(old(ctx.stack[len(ctx.stack)-1]))))
+//@   ensures forall(i, 0, len(ctx.stack)-1, ctx.stack[i] == old(ctx.stack[i]))
+//@ func (*ProgBuilder).Div
+//@   requires ctx != nil
+//@   ensures len(ctx.stack) == old(len(ctx.stack)) - 1
+//@   ensures ctx.stack[len(ctx.stack)-1] == xp_mknum(xp_div(xp_number(old(ctx.stack[len(ctx.stack)-2])), xp_number(old(ctx.stack[len(ctx.stack)-1]))))
+//@   ensures forall(i, 0, len(ctx.stack)-1, ctx.stack[i] == old(ctx.stack[i]))
+//@ func (*ProgBuilder).Negate
+//@   requires ctx != nil
+//@   ensures len(ctx.stack) == old(len(ctx.stack))
+//@   ensures ctx.stack[len(ctx.stack)-1] == xp_mknum(xp_neg(xp_number(old(ctx.stack[len(ctx.stack)-1]))))
+//@   ensures forall(i, 0, len(ctx.stack)-1, ctx.stack[i] == old(ctx.stack[i]))
+//@ func (*ProgBuilder).And
+//@   requires ctx != nil
+//@   ensures len(ctx.stack) == old(len(ctx.stack)) - 1
+//@   ensures ctx.stack[len(ctx.stack)-1] == xp_mkbool(xp_boolean(old(ctx.stack[len(ctx.stack)-2])) && xp_boolean(old(ctx.stack[len(ctx.stack)-1])))
+//@   ensures forall(i, 0, len(ctx.stack)-1, ctx.stack[i] == old(ctx.stack[i]))
+//@ func (*ProgBuilder).Or
+//@   requires ctx != nil
+//@   ensures len(ctx.stack) == old(len(ctx.stack)) - 1
+//@   ensures ctx.stack[len(ctx.stack)-1] == xp_mkbool(xp_boolean(old(ctx.stack[len(ctx.stack)-2])) || xp_boolean(old(ctx.stack[len(ctx.stack)-1])))
+//@   ensures forall(i, 0, len(ctx.stack)-1, ctx.stack[i] == old(ctx.stack[i]))
